@@ -53,8 +53,6 @@ Definition parse_lsn (s : string) : option N :=
   | _ => None
   end.
 
-Fixpoint all_chars (p : ascii -> bool) (s : string) : bool :=
-  match s with "" => true | String c r => p c && all_chars p r end.
 Definition is_HEX (c : ascii) : bool := match dvalHEX c with Some _ => true | None => false end.
 Definition canonical_hex (s : string) : bool :=
   match s with
